@@ -45,7 +45,7 @@ func (check) Cases(tier string) int { return len(table) + randomCases(tier) }
 func (check) Exhaustive(string) bool { return false }
 
 func (check) Rule() string {
-	return "setting values: a finite boundary table (0, +-1, +-2^k and +-(2^k+-1) for k in {7,8,15,16,31,32,53,63,64}, float neighbours of +-2^31/2^32/2^63/2^64/2^53, MaxFloat32 / the float32 rounding limit / MaxFloat64 / subnormals and their neighbours, +-Inf, NaN, -0, fractional values at every sized maximum, second counts at +-9223372036(.854775807) and at 2^53ns/2^62ns; each as int64, uint64, float64 and in every strconv spelling: decimal, 0x, 0X, 0b, 0o, 0NNN, 1_000, +N, N.0, Ne0, %g/%e/%E/%x/%f; plus booleans, duration strings at the int64 limits and unparsable strings) - one case per table value: the value built 4 ways (NewFrom literal; SetInt/SetUint/SetFloat/SetString/SetBool; NewFrom with ${src} references and VarExp, src literal or Set*) x 15 target kinds (+ uintptr, monitors only) x plain/*T/named/*named x struct field, map[string]T value, []T element, plus the getters Bool/Int/Uint/Float/String; then the value as TEXT the library reads again, in 9 forms (\"${src:D}\" and \"${src:?msg}\" with src set, literal or Set*: the library renders the value itself; \"${absent:TEXT}\"; \"${other:+TEXT}\"; \"${hi}${lo}\" and \"TE${lo}\" / \"${hi}XT\" with TEXT cut at a random place; \"${ENVX}\" and \"${ENVX:D}\" answered by a Resolve option with parse.EnvConfig/DefaultConfig/NoopConfig; a -E style flag value f=TEXT), TEXT = the string value itself when it is a word (letters, digits, + - . _ only) or the decimal numeral of an int64/uint64 value, each form x every target type through one random route + the getters; then random cases of 16 values each within +-4 (ulp) of a boundary, every kind and getter through one random (construction, variant, route) and once more through one of three random applicable text forms. Non-trivial = the setting value is not zero/false/blank; distinct = distinct (value class = kind, syntax, sign, bit length/exponent, fractional?; target type; construction/route)."
+	return "setting values: a finite boundary table (0, +-1, +-2^k and +-(2^k+-1) for k in {7,8,15,16,31,32,53,63,64}, float neighbours of +-2^31/2^32/2^63/2^64/2^53, MaxFloat32 / the float32 rounding limit / MaxFloat64 / subnormals and their neighbours, +-Inf, NaN, -0, fractional values at every sized maximum, second counts at +-9223372036(.854775807) and at 2^53ns/2^62ns; each as int64, uint64, float64 and in every strconv spelling: decimal, 0x, 0X, 0b, 0o, 0NNN, 1_000, +N, N.0, Ne0, %g/%e/%E/%x/%f; plus booleans, boolean words (every strconv.ParseBool spelling, on/off/yes/no/y/n/enable..., near misses; in the random cases in every casing and now and then padded), duration strings at the int64 limits and unparsable strings) - one case per table value: the value built 4 ways (NewFrom literal; SetInt/SetUint/SetFloat/SetString/SetBool; NewFrom with ${src} references and VarExp, src literal or Set*) x 15 target kinds (+ uintptr, monitors only) x plain/*T/named/*named x struct field, map[string]T value, []T element, plus the getters Bool/Int/Uint/Float/String; then the value as TEXT the library reads again, in 9 forms (\"${src:D}\" and \"${src:?msg}\" with src set, literal or Set*: the library renders the value itself; \"${absent:TEXT}\"; \"${other:+TEXT}\"; \"${hi}${lo}\" and \"TE${lo}\" / \"${hi}XT\" with TEXT cut at a random place; \"${ENVX}\" and \"${ENVX:D}\" answered by a Resolve option with parse.EnvConfig/DefaultConfig/NoopConfig; a -E style flag value f=TEXT), TEXT = the string value itself when it is a word (letters, digits, + - . _ only) or the decimal numeral of an int64/uint64 value, each form x every target type through one random route + the getters; then random cases of 16 values each within +-4 (ulp) of a boundary, every kind and getter through one random (construction, variant, route) and once more through one of three random applicable text forms. Non-trivial = the setting value is not zero/false/blank; distinct = distinct (value class = kind, syntax, sign, bit length/exponent, fractional?; target type; construction/route)."
 }
 
 func (check) Assumptions() []string {
@@ -54,7 +54,7 @@ func (check) Assumptions() []string {
 		"strings mean what strconv reads: ParseInt/ParseUint base 0 for integers, ParseFloat for floats (float32: via float64 or directly), ParseBool, time.ParseDuration; a string only the other numeric parser accepts (\"+5\" into uint, \"1e3\" into int, \"0x10\" into float, \"5\" into Duration) may be an error or that value",
 		"float seconds -> Duration: exact when seconds*1e9 is an integer, else |stored - exact| < 1ns; a deviation explained by rounding the product to float64 gets its own signature (-imprecise)",
 		"a fractional float whose truncation fits but which lies beyond the range as a real (127.9 into int8) may be an error or the truncated value",
-		"not compared: which error; number<->bool and bool->number/Duration (no mathematical reading); spellings on/off/yes/no for bool; the text a float renders to (it must parse back to the same float64); sign of zero; NaN payload",
+		"not compared: which error; number<->bool and bool->number/Duration (no mathematical reading); on text routes the words other than strconv's that the expansion / flag parser reads as booleans (on/off; a STRING setting with such a word, any casing, is an error like every string strconv.ParseBool refuses: signature ...-accepts-boolean-word-strconv-refuses); the text a float renders to (it must parse back to the same float64); sign of zero; NaN payload",
 		"an error where a value was possible is reported only for in-range integer->integer, integer->float64 when exactly representable, and float64->float64 (literal numbers, any route)",
 		"a named type over time.Duration (type D time.Duration, also *D, as map value and slice element) is generated and converted but NOT held to the seconds reading: to reflection it is a named int64 like any other (Kind int64, no methods, nothing links it to time.Duration), so no library can give it another meaning than `type N int64`, whose values this check pins to the bare number; only panics are reported, the named_duration_* monitors count what is stored (switch judgeNamedDurationAsSeconds turns the duration oracle on: sig number-to-named-duration-taken-as-nanoseconds)",
 		"monitor only (an error is always allowed): plain_ref_fails_where_value_converts counts (value, target, route) triples of the table cases in which the literal / Set* value converts and a plain \"${src}\" reference to it returns an error",
@@ -627,6 +627,19 @@ func errClass(err error) string {
 func (ru *runner) judge(cons, ki int, k *tkind, to string, err error, got reflect.Value, present bool, call func() string) {
 	e, from := ru.expFor(cons, ki)
 	namedDur := to == "named-duration"
+	if k.class == cBool && cons < nDirect && ru.s.kind == 's' {
+		// boolean spellings of STRING settings
+		switch {
+		case e.mode == mErr && e.why == "boolean-word-strconv-refuses":
+			ru.res.Ev("string_boolean_word_strconv_refuses_into_bool", 1)
+			ru.res.SetAdd("string_boolean_word_strconv_refuses", strings.ToLower(strings.TrimSpace(ru.s.s)))
+		case e.b != nil:
+			ru.res.Ev("string_strconv_boolean_spelling_into_bool", 1)
+			if err != nil {
+				ru.res.Ev("string_strconv_boolean_spelling_refused", 1) // allowed (value or error); monitor
+			}
+		}
+	}
 	if e.decimal != nil {
 		ru.res.Ev("float_target_numeral_with_two_readings", 1)
 	}
